@@ -1,4 +1,379 @@
+import BobModel.Model.Checkout
+import BobModel.Model.GitSwitch
 import BobModel.Util.Proto
 open Lean Proto
-/-- stub driver of C12: replaced when the model of this property is built -/
-def main : IO Unit := runPure fun _ => err "unsupported"
+
+/-
+Driver of C12.  Stateful per history (the builder state `St` is kept between requests).
+
+requests (one JSON object per line):
+ {"op":"cansw","old":spec,"new":spec}                                   -> {"ok":bool}
+ {"op":"taints","flags":["modified",...]}                               -> {"dirty":b,"expendable":b}
+ {"op":"order","dirs":[..],"moved":[..],"query":[..]}                   -> {"sorted":[..],"affected":[..]}
+ {"op":"git","dag":D,"univ":U,"repo":R,"mode":"switch"|"update"|"fresh","old":spec?,"new":spec}
+                                                                         -> {"ok":b,"repo":R}
+ {"op":"status","dag":D,"repo":R,"spec":spec,"extra":b}                 -> {"flags":[..]}
+ {"op":"begin"}                                                         -> {"ok":true}
+ {"op":"sync","contents":[{"loc":L,"content":C}],"plain":[[comp]]}      -> {"ok":true}   (contents of existing dirs)
+ {"op":"dev","dag":D,"univ":U,"files":F,"imports":[..],"new":[spec],"clean":b,"attic":b} -> state + error
+ {"op":"clean","mode":"src"|"attic","dry":b,"dag":D}                     -> state
+ spec  = {"scm":"git","url","branch","tag","commit":nat?,"dir","submodules","ubc"}
+       | {"scm":"url","url","sha1","sha256","dir","fileName","extract","strip","fileMode":nat?,"sep"}
+       | {"scm":"import","url","dir","prune"}
+ R     = {"objs":[n],"heads":{n:c},"remotes":{},"tags":{},"head":{"branch":n}|{"detached":c},
+          "dirty":[[p,b]],"untracked":[[p,b]],"url":s?}
+ D     = {"parents":[[c,[p..]]],"trees":[[c,[[path,blob]]]]}
+ U     = {url:{"branches":{n:c},"tags":{n:c}}}
+ L     = {"ws":[comp]} | {"attic":n,"sub":[comp]}
+ C     = {"git":R,"extra":b} | {"file":sha1,"name":s} | {"other":true}
+-/
+
+open GitSwitch Checkout
+
+structure UrlSpec where
+  url : String
+  sha1 : Option String
+  sha256 : Option String
+  dir : String
+  fileName : String
+  extract : String
+  strip : Nat
+  fileMode : Option Nat
+  sep : Bool
+  deriving Repr, BEq
+
+structure ImpSpec where
+  url : String
+  dir : String
+  prune : Bool
+  deriving Repr, BEq
+
+inductive Spec
+  | git (s : GitSpec)
+  | url (s : UrlSpec)
+  | imp (s : ImpSpec)
+
+inductive Content
+  | git (r : Repo) (extra : Bool)
+  | file (sha1 : String) (name : String)
+  | other
+
+def optStr (j : Json) (k : String) : Option String :=
+  match j.getObjVal? k with
+  | .ok (.str s) => some s
+  | _ => none
+
+def optNat (j : Json) (k : String) : Option Nat :=
+  match j.getObjVal? k with
+  | .ok v => v.getNat?.toOption
+  | _ => none
+
+def specOf (j : Json) : Spec :=
+  match getStr j "scm" with
+  | "git" => .git { url := getStr j "url", branch := optStr j "branch", tag := optStr j "tag",
+                    commit := optNat j "commit", useBranchAndCommit := getBool j "ubc",
+                    submodules := getBool j "submodules", dir := getStr j "dir" }
+  | "url" => .url { url := getStr j "url", sha1 := optStr j "sha1", sha256 := optStr j "sha256",
+                    dir := getStr j "dir", fileName := getStr j "fileName", extract := getStr j "extract",
+                    strip := getNat j "strip", fileMode := optNat j "fileMode", sep := getBool j "sep" }
+  | _ => .imp { url := getStr j "url", dir := getStr j "dir", prune := getBool j "prune" }
+
+def Spec.dir : Spec → String
+  | .git s => s.dir
+  | .url s => s.dir
+  | .imp s => s.dir
+
+def kvNat (j : Json) : List (String × Nat) :=
+  match j with
+  | .obj kvs => kvs.toList.filterMap fun (k, v) => (v.getNat?.toOption).map fun n => (k, n)
+  | _ => []
+
+def pairList (j : Json) : List (String × Nat) :=
+  match j with
+  | .arr a => a.toList.filterMap fun x => match x with
+    | .arr p => match p.toList with
+      | [.str s, n] => (n.getNat?.toOption).map fun n => (s, n)
+      | _ => none
+    | _ => none
+  | _ => []
+
+def natList (j : Json) : List Nat :=
+  match j with
+  | .arr a => a.toList.filterMap fun x => x.getNat?.toOption
+  | _ => []
+
+def repoOf (j : Json) : Repo :=
+  let h := j.getObjValD "head"
+  { objs := natList (j.getObjValD "objs"),
+    heads := kvNat (j.getObjValD "heads"),
+    remotes := kvNat (j.getObjValD "remotes"),
+    tags := kvNat (j.getObjValD "tags"),
+    head := match optStr h "branch" with
+      | some b => .branch b
+      | none => .detached (getNat h "detached"),
+    dirty := pairList (j.getObjValD "dirty"),
+    untracked := pairList (j.getObjValD "untracked"),
+    url := optStr j "url" }
+
+def kvJson (l : List (String × Nat)) : Json := Json.mkObj (l.map fun (k, v) => (k, Json.num v))
+def pairsJson (l : List (String × Nat)) : Json := Json.arr (l.map fun (k, v) => Json.arr #[Json.str k, Json.num v]).toArray
+
+def repoJson (r : Repo) : Json :=
+  Json.mkObj [
+    ("heads", kvJson r.heads), ("remotes", kvJson r.remotes), ("tags", kvJson r.tags),
+    ("head", match r.head with
+      | .branch b => Json.mkObj [("branch", Json.str b)]
+      | .detached c => Json.mkObj [("detached", Json.num c)]),
+    ("headCommit", match r.headCommit with | some c => Json.num c | none => Json.null),
+    ("dirty", pairsJson r.dirty), ("untracked", pairsJson r.untracked),
+    ("url", match r.url with | some u => Json.str u | none => Json.null)]
+
+def dagOf (j : Json) : Dag :=
+  { parents := (getArr j "parents").filterMap fun x => match x with
+      | .arr p => match p.toList with
+        | [c, ps] => (c.getNat?.toOption).map fun c => (c, natList ps)
+        | _ => none
+      | _ => none,
+    trees := (getArr j "trees").filterMap fun x => match x with
+      | .arr p => match p.toList with
+        | [c, t] => (c.getNat?.toOption).map fun c => (c, pairList t)
+        | _ => none
+      | _ => none }
+
+def univOf (j : Json) : List (String × Upstream) :=
+  match j with
+  | .obj kvs => kvs.toList.map fun (u, v) =>
+      (u, { branches := kvNat (v.getObjValD "branches"), tags := kvNat (v.getObjValD "tags") })
+  | _ => []
+
+def compsOf (j : Json) : Comps := strList j
+
+def locOf (j : Json) : Loc :=
+  match j.getObjVal? "ws" with
+  | .ok w => .ws (compsOf w)
+  | _ => .attic (getNat j "attic") (compsOf (j.getObjValD "sub"))
+
+def locJson : Loc → Json
+  | .ws p => Json.mkObj [("ws", Json.arr (p.map Json.str).toArray)]
+  | .attic n p => Json.mkObj [("attic", Json.num n), ("sub", Json.arr (p.map Json.str).toArray)]
+
+def contentOf (j : Json) : Content :=
+  match j.getObjVal? "git" with
+  | .ok r => .git (repoOf r) (getBool j "extra")
+  | _ => match optStr j "file" with
+    | some h => .file h (getStr j "name")
+    | none => .other
+
+def contentJson : Content → Json
+  | .git r _ => Json.mkObj [("git", repoJson r)]
+  | .file h n => Json.mkObj [("file", Json.str h), ("name", Json.str n)]
+  | .other => Json.mkObj [("other", Json.bool true)]
+
+/-! SCM semantics of the three kinds -/
+
+structure World where
+  dag : Dag
+  univ : List (String × Upstream)
+  files : List (String × String)       -- url ↦ sha1 of the file served there
+  files256 : List (String × String)
+  imports : List String                -- import source directories that exist
+
+def urlDeterministic (s : UrlSpec) : Bool := s.sha1.isSome || s.sha256.isSome
+
+/-- `UrlScm.canSwitch` -/
+def urlCanSwitch (o n : UrlSpec) : Bool :=
+  if o.sep != n.sep then false else
+  let urlDiff := o.url != n.url && !(urlDeterministic n && o.sha1 == n.sha1 && o.sha256 == n.sha256)
+  !(urlDiff || o.dir != n.dir || o.fileName != n.fileName || o.extract != n.extract || o.strip != n.strip)
+
+/-- `asDigestScript` of the three kinds; `commitHex` maps commit numbers back to ids -/
+def digestScript (commitHex : Nat → String) : Spec → String
+  | .git s =>
+    (match s.commit with
+     | some c => commitHex c ++ " " ++ s.dir
+     | none => match s.tag with
+       | some t => s.url ++ " refs/tags/" ++ t ++ " " ++ s.dir
+       | none => s.url ++ " refs/heads/" ++ s.branch.getD "master" ++ " " ++ s.dir) ++
+    (if s.submodules then " submodules" else "")
+  | .url s =>
+    (s.sha256.getD (s.sha1.getD s.url)) ++ " " ++
+      (if s.dir == "." || s.dir == "" then s.fileName else s.dir ++ "/" ++ s.fileName) ++ " " ++ s.extract ++
+      (if s.strip > 0 then " s" ++ toString s.strip else "") ++
+      (match s.fileMode with | some m => " m" ++ toString m | none => "") ++
+      (if s.sep then " sep" else "")
+  | .imp s => s.url ++ " " ++ s.dir
+
+def sem (w : World) : ScmSem Spec Content where
+  canSwitch o n :=
+    match o, n with
+    | .git o, .git n => GitSwitch.canSwitch o n
+    | .url o, .url n => urlCanSwitch o n
+    | _, _ => false
+  switch o n k :=
+    match o, n, k with
+    | .git o, .git n, .git r x =>
+      let res := switchAct (modelOps w.dag w.univ) o n r
+      (.git res.1 x, res.2)
+    | .url _, .url _, k => (k, true)
+    | _, _, k => (k, false)
+  invoke s k :=
+    match s with
+    | .git s =>
+      let (r0, x) := match k with
+        | some (.git r x) => (r, x)
+        | _ => (Repo.init, false)
+      let res := invokeAct (modelOps w.dag w.univ) s false r0
+      (.git res.1 x, res.2)
+    | .url s =>
+      let present : Option String := match k with
+        | some (.file h n) => if n == s.fileName then some h else none
+        | _ => none
+      let got : Option String :=
+        match present with
+        | some h => if urlDeterministic s then some h else some ((assoc w.files s.url).getD h)
+        | none => assoc w.files s.url
+      match got with
+      | none => ((k.getD .other), false)
+      | some h =>
+        let ok1 := match s.sha1 with | some d => d == h | none => true
+        -- sha256 is checked against the sha256 table of the universe (keyed by sha1)
+        let ok2 := match s.sha256 with | some d => (assoc w.files256 h) == some d | none => true
+        (.file h s.fileName, ok1 && ok2)
+    | .imp s => (.other, w.imports.contains s.url)
+  dirty s k :=
+    match s, k with
+    | .git s, some (.git r x) => (status w.dag s x r).dirty
+    | .git _, _ => true
+    | _, _ => false
+  expendable s k :=
+    match s, k with
+    | .git s, some (.git r x) => (status w.dag s x r).expendable
+    | .git _, _ => false
+    | _, _ => true
+  prunes s := match s with | .imp s => s.prune | _ => false
+
+def deterministic : Spec → Bool
+  | .git s => s.tag.isSome || s.commit.isSome
+  | .url s => urlDeterministic s
+  | .imp _ => false
+
+def worldOf (j : Json) : World :=
+  { dag := dagOf (j.getObjValD "dag"), univ := univOf (j.getObjValD "univ"),
+    files := match j.getObjValD "files" with
+      | .obj kvs => kvs.toList.filterMap fun (k, v) => match v with | .str s => some (k, s) | _ => none
+      | _ => [],
+    files256 := match j.getObjValD "files256" with
+      | .obj kvs => kvs.toList.filterMap fun (k, v) => match v with | .str s => some (k, s) | _ => none
+      | _ => [],
+    imports := strList (j.getObjValD "imports") }
+
+def errJson : Option Err → Json
+  | none => Json.null
+  | some (.atticDisabled d) => Json.mkObj [("kind", "atticDisabled"), ("dir", Json.str d)]
+  | some (.collides d) => Json.mkObj [("kind", "collides"), ("dir", Json.str d)]
+  | some (.scmFailed d) => Json.mkObj [("kind", "scmFailed"), ("dir", Json.str d)]
+
+def opJson : Op Spec → Json
+  | .scmSwitch p ok => Json.mkObj [("op", "switch"), ("p", Json.arr (p.map Json.str).toArray), ("ok", Json.bool ok)]
+  | .moveToAttic p n => Json.mkObj [("op", "attic"), ("p", Json.arr (p.map Json.str).toArray), ("n", Json.num n)]
+  | .regAttic n sub _ => Json.mkObj [("op", "reg"), ("n", Json.num n), ("sub", Json.arr (sub.map Json.str).toArray)]
+  | .setDirState d => Json.mkObj [("op", "state"), ("dirs", Json.arr (d.map Json.str).toArray)]
+  | .invoke p f ok => Json.mkObj [("op", "invoke"), ("p", Json.arr (p.map Json.str).toArray), ("fresh", Json.bool f), ("ok", Json.bool ok)]
+  | .emptyDir p => Json.mkObj [("op", "empty"), ("p", Json.arr (p.map Json.str).toArray)]
+  | .rmAttic n sub => Json.mkObj [("op", "rmattic"), ("n", Json.num n), ("sub", Json.arr (sub.map Json.str).toArray)]
+  | .rmWorkspace => Json.mkObj [("op", "rmws")]
+
+def stateJson (st : St Spec Content) (newOps : List (Op Spec)) (err : Option Err) : Json :=
+  Json.mkObj [
+    ("err", errJson err),
+    ("ops", Json.arr (newOps.reverse.map opJson).toArray),
+    ("dirs", Json.arr (st.old.map fun e => Json.mkObj [("dir", Json.str e.dir),
+        ("digest", match e.digest with | some d => Json.str d | none => Json.null)]).toArray),
+    ("attic", Json.arr (st.atticReg.map fun e => Json.mkObj [("n", Json.num e.1.1),
+        ("sub", Json.arr (e.1.2.map Json.str).toArray)]).toArray),
+    ("fs", Json.arr (st.fs.map fun e => Json.mkObj [("loc", locJson e.1), ("content", contentJson e.2)]).toArray),
+    ("wsMissing", Json.bool st.wsMissing)]
+
+def emptySt : St Spec Content :=
+  { fs := [], plain := [], wsMissing := true, old := [], atticReg := [], nextAttic := 0, ops := [] }
+
+def flagTaints (fl : List String) : Taints :=
+  { modified := fl.contains "modified", error := fl.contains "error", switched := fl.contains "switched",
+    unpushedMain := fl.contains "unpushed_main", unpushedLocal := fl.contains "unpushed_local",
+    unknown := fl.contains "unknown" }
+
+def taintsJson (t : Taints) : Json :=
+  Json.arr ((if t.modified then ["modified"] else []) ++ (if t.error then ["error"] else []) ++
+    (if t.switched then ["switched"] else []) ++ (if t.unpushedMain then ["unpushed_main"] else []) ++
+    (if t.unpushedLocal then ["unpushed_local"] else []) ++ (if t.unknown then ["unknown"] else [])
+    |>.map Json.str).toArray
+
+def gitSpecOf (j : Json) : GitSpec :=
+  match specOf j with
+  | .git s => s
+  | _ => { url := "", branch := none, tag := none, commit := none, useBranchAndCommit := false }
+
+def step (st : St Spec Content) (j : Json) : St Spec Content × Json :=
+  match getStr j "op" with
+  | "cansw" =>
+    let w : World := { dag := ⟨[], []⟩, univ := [], files := [], files256 := [], imports := [] }
+    (st, Json.mkObj [("ok", Json.bool ((sem w).canSwitch (specOf (j.getObjValD "old")) (specOf (j.getObjValD "new"))))])
+  | "taints" =>
+    let t := flagTaints (strList (j.getObjValD "flags"))
+    (st, Json.mkObj [("dirty", Json.bool t.dirty), ("expendable", Json.bool t.expendable)])
+  | "order" =>
+    let dirs := strList (j.getObjValD "dirs")
+    let entries : List (OldEntry Unit) := dirs.map fun d => { dir := d, digest := none, spec := none }
+    let sorted := (sortedOld entries).map (·.dir)
+    let tr := (strList (j.getObjValD "moved")).foldl (fun (tr : List (Comps × Nat)) d => trackerAdd tr (normComps d) tr.length) []
+    let aff := (strList (j.getObjValD "query")).map fun d =>
+      match trackerMatch tr (normComps d) with
+      | some (q, n) => Json.mkObj [("n", Json.num n), ("sub", Json.str ("/".intercalate ((normComps d).drop q.length)))]
+      | none => Json.null
+    (st, Json.mkObj [("sorted", Json.arr (sorted.map Json.str).toArray), ("affected", Json.arr aff.toArray),
+        ("norm", Json.arr (dirs.map fun d => Json.str ("/".intercalate (normComps d))).toArray)])
+  | "git" =>
+    let w := worldOf j
+    let ops := modelOps w.dag w.univ
+    let r := repoOf (j.getObjValD "repo")
+    let new := gitSpecOf (j.getObjValD "new")
+    let res := match getStr j "mode" with
+      | "switch" => switchAct ops (gitSpecOf (j.getObjValD "old")) new r
+      | "update" => invokeAct ops new false r
+      | _ => invokeAct ops new false Repo.init
+    (st, Json.mkObj [("ok", Json.bool res.2), ("repo", repoJson res.1)])
+  | "status" =>
+    let w := worldOf j
+    (st, Json.mkObj [("flags", taintsJson (status w.dag (gitSpecOf (j.getObjValD "spec")) (getBool j "extra")
+      (repoOf (j.getObjValD "repo"))))])
+  | "begin" => (emptySt, Json.mkObj [("ok", Json.bool true)])
+  | "sync" =>
+    -- contents of existing directories as observed (after user / upstream actions)
+    let cs := (getArr j "contents").map fun c => (locOf (c.getObjValD "loc"), contentOf (c.getObjValD "content"))
+    let fs := st.fs.map fun e => match cs.find? (fun c => c.1 == e.1) with
+      | some c => (e.1, c.2)
+      | none => e
+    ({ st with fs := fs }, Json.mkObj [("ok", Json.bool true)])
+  | "dev" =>
+    let w := worldOf j
+    let hexes := strList (j.getObjValD "hex")
+    let commitHex := fun (n : Nat) => hexes.getD n ""
+    let new : List (NewEntry Spec) := (getArr j "new").map fun s =>
+      let sp := specOf s
+      { dir := sp.dir, digest := digestScript commitHex sp, spec := sp }
+    let fl : Flags := { cleanCheckout := getBool j "clean", atticEnabled := getBool j "attic" }
+    let indet := new.any fun n => !deterministic n.spec
+    let st0 := { st with ops := [] }
+    let res := cook (sem w) fl indet new st0
+    (res.1, stateJson res.1 res.1.ops res.2)
+  | "clean" =>
+    let w := worldOf j
+    let st0 := { st with ops := [] }
+    let st1 := match getStr j "mode" with
+      | "attic" => cleanAttic (sem w) (getBool j "dry") st0
+      | "src" => cleanSrc (sem w) (getBool j "dry") st0
+      | _ => st0       -- the package is in use: `bob clean -s` leaves its source workspace alone
+    (st1, stateJson st1 st1.ops none)
+  | _ => (st, err "bad-op")
+
+def main : IO Unit := run (St Spec Content) emptySt step
